@@ -51,7 +51,7 @@ class Contract:
                loops=None, yields=None, props=(), ghost_params=None,
                inline=False, captured=None, pure=False, kind='function',
                on_raise=None, gen_post=None, setup=None, hints=None,
-               locals_shapes=None):
+               locals_shapes=None, memo=False, reads=None):
     self.qualname = qualname
     self.params = params or {}            # name -> Shape (self excluded)
     self.result = result                  # Shape of the result (call side)
@@ -74,6 +74,12 @@ class Contract:
     self.setup = setup                    # fn(ctx, env) run before the body
     self.hints = hints or {}
     self.locals_shapes = locals_shapes or {}
+    # memo: the function is a deterministic function of the state it reads
+    # (no randomness, no dependence on unspecified iteration order); as long
+    # as none of the fields in `reads` changed, a repeated call returns the
+    # same value and re-installs the same post-state.
+    self.memo = memo
+    self.reads = reads
 
 
 class ClassSpec:
